@@ -650,14 +650,23 @@ def check_convergence(mbi, case, eng, last, probes):
     model, meas, total, solver, options = last
     options = {}        # a caller-chosen constant step size carries no convergence guarantee: use the solver's own line search
     K = 300
-    # the warm starting point: spread of its parameters (>= 700 means exp() underflows: a saturated, one-hot start)
-    spread = 0.0
+    # the warm starting point: is it numerically one-hot (saturated)?  Then mirror descent has nowhere to go (known finding F12).
+    spread, onehot = 0.0, False
     for cl in eng.model.cliques:
         v = np.asarray(eng.model.potentials[cl].values, dtype=float)
         v = v[np.isfinite(v)]
         if v.size:
             spread = max(spread, float(v.max() - v.min()))
-    sat = ':saturated-start' if spread >= 700 else ''
+    try:
+        with np.errstate(all='ignore'):
+            mu0 = eng.model.belief_propagation(eng.model.potentials)
+        for cl in eng.model.cliques:
+            a = np.asarray(mu0[cl].values, dtype=float)
+            if a.size > 1 and np.isfinite(a).all() and a.sum() > 0 and (a.sum() - a.max()) / a.sum() < 1e-9:
+                onehot = True
+    except Exception:
+        pass
+    sat = ':saturated-start' if (onehot or spread >= 700) else ''
     gaps = []
     for mult in (1, 4, 16):
         warm_eng = copy.copy(eng)          # shares eng.model (the warm starting point) but not later state
